@@ -8,7 +8,7 @@
 if (typeof RXCFG === "undefined") var RXCFG = {engine: "re2", deopt: false};
 var HI = "\uD835", LO = "\uDCB3";
 var SRC = {"a": "a", "ab": "ab", "(?:)": "(?:)", "b*": "b*", "b{0,2}": "b{0,2}", "a|b": "a|b", ".": ".", "^a": "^a", "a$": "a$",
-           "astral": HI + LO, "loneH": "\\uD835", "(a)|b": "(a)|b"};
+           "astral": HI + LO, "loneH": "\\uD835", "(a)|b": "(a)|b", "(?<n>a)|b": "(?<n>a)|b"};
 var WHITEBOX = typeof __rxInfo === "function";
 var EXEC_CALLS = 0;
 if (RXCFG.deopt) {
@@ -67,7 +67,10 @@ function arr(r, S) {
   if (r.input !== S) return "input property is not the subject";
   if (typeof r.index !== "number") return "index is " + typeof r.index;
   if (r[0] !== S.substring(r.index, r.index + r[0].length)) return "matched string is not the substring at index " + r.index;
-  if (!("groups" in r) || r.groups !== undefined) return "groups should be an own property with value undefined";
+  if (PAT === "(?<n>a)|b") {
+    if (!("groups" in r) || r.groups === undefined || r.groups === null) return "groups should be an object for a pattern with a named group";
+    if (Object.getPrototypeOf(r.groups) !== null || !("n" in r.groups) || r.groups.n !== r[1]) return "groups.n is not capture 1";
+  } else if (!("groups" in r) || r.groups !== undefined) return "groups should be an own property with value undefined";
   var c = [];
   for (var k = 1; k < r.length; k++) c.push(cap(r[k]));
   return {i: r.index, m: enc(r[0]), c: c};
@@ -124,6 +127,12 @@ function step(l) {
       var calls = [];
       r = S.replace(RE, function(m) {
         var n = arguments.length, c = [];
+        if (PAT === "(?<n>a)|b") {
+          // a pattern with named groups passes the groups object as one more argument (22.2.6.11 step 14.k)
+          var gr = arguments[n - 1];
+          if (gr === null || typeof gr !== "object" || gr.n !== arguments[1]) throw new Error("last replacer argument is not the groups object");
+          n--;
+        }
         if (arguments[n - 1] !== S) throw new Error("last replacer argument is not the subject");
         for (var k = 1; k < n - 2; k++) c.push(cap(arguments[k]));
         calls.push({m: enc(m), c: c, p: arguments[n - 2]});
